@@ -53,6 +53,9 @@ LineOK(ln) ==
     \* CipherStream's reader is fail-stop (Read requires ~failed): nothing is
     \* returned as valid after the first error
     /\ ln.afterErr = 0
+    \* what was returned as valid is still what the peer wrote when the
+    \* stream has ended (later reads, failing or not, do not change it)
+    /\ ln.keptOK = 1
 
 VARIABLE i
 Init == i = 1
